@@ -933,17 +933,20 @@ pub fn diff_profile() -> Profile {
         name: "sync-vs-async",
         modes: vec![Mode::Quiescent],
         async_pct: 0,
-        cap: Cap::Mixed,
-        ttl_pct: 40,
+        cap: Cap::Tight,
+        ttl_pct: 55,
+        len: (20, 90),
+        big_advances: false,
         metrics: Some(true),
         validators: vec![Validator::Always, Validator::TagGe, Validator::Never],
         getmut_write: true,
         w: {
             let mut w = Weights::default();
-            w.clear = 3;
-            w.tick = 10;
-            w.adv = 14;
+            w.clear = 4;
+            w.tick = 14;
+            w.adv = 16;
             w.wait = 3;
+            w.gethold = 3;
             w
         },
         ..Profile::default()
@@ -996,7 +999,7 @@ pub fn diff_case(case: &Case, stats: Option<&Stats>) -> Result<Vec<String>, Stri
 }
 
 pub fn run_diff_check(tier: &str, seed: u64, stats: &Stats) -> CheckOutcome {
-    let n = if tier_is_thorough(tier) { 120_000 } else { 5000 };
+    let n = if tier_is_thorough(tier) { 150_000 } else { 8000 };
     let prof = diff_profile();
     let harness_err: parking_lot::Mutex<Option<String>> = parking_lot::Mutex::new(None);
     let res = run_prop(|| case_strategy(&prof), n, seed, 16, stats, |case| match diff_case(case, Some(stats)) {
